@@ -76,6 +76,10 @@ pub struct Inner {
     /// set by a preempt: the next scheduling choice must not be this task
     avoid: Option<usize>,
     pub spawned: usize,
+    /// process creations requested by the code under test so far
+    pub spawn_calls: usize,
+    /// fault injection: the process creation with this index fails (fork reports EAGAIN)
+    pub fail_spawn: Option<usize>,
 }
 
 #[derive(Clone)]
@@ -92,6 +96,14 @@ impl std::fmt::Debug for Sched {
 
 impl Executor for Sched {
     fn spawn(&self, task: Task) -> Result<(), Box<dyn std::error::Error>> {
+        {
+            let mut i = self.inner.borrow_mut();
+            let k = i.spawn_calls;
+            i.spawn_calls += 1;
+            if i.fail_spawn == Some(k) {
+                return Err("verif: injected process-creation failure".into());
+            }
+        }
         self.add(task);
         Ok(())
     }
@@ -124,6 +136,8 @@ impl Sched {
                 current: None,
                 avoid: None,
                 spawned: 0,
+                spawn_calls: 0,
+                fail_spawn: None,
             })),
             shared: Arc::new(Shared {
                 queue: Mutex::new(VecDeque::new()),
